@@ -136,11 +136,31 @@ class Conc(object):
         if fam == "kwdom":
             self.kw[1] = labels[0]
         self.pat = {}       # id -> (configured pattern, text that contains / matches it)
+        cores = []
         for i in range(1, nid["pat"] + 1):
-            core = "PT" + word(rng, UP, 2, 4)
+            while True:
+                core = "PT" + word(rng, UP, 2, 4)
+                if not any(core.startswith(c) or c.startswith(core) for c in cores):
+                    break
+            cores.append(core)
             if cf["regex"]:
-                form = rng.randrange(4)
-                if form == 0:
+                # every pattern of a list is a regular expression of its own: capture groups, numbered and named
+                # back-references, inline flags, anchors and bare alternations mean what they mean in THAT pattern
+                form = pick(rng, [2, 2, 2, 0, 1, 3]) if i == 1 else pick(rng, [0, 1, 2, 3, 4, 4, 5, 5, 6, 7, 8, 9])
+                d = pick(rng, DIG)
+                if form == 4:       # numbered back-reference to the pattern's own first group
+                    self.pat[i] = (core + r"(\d)\1{2}", core + d * 3)
+                elif form == 5:     # two groups, reference to the second
+                    self.pat[i] = (core + r"([G-Y])(\d)\2\1", core + "%s%s%s%s" % ("K", d, d, "K"))
+                elif form == 6:     # named group + named back-reference (the same name in every pattern of the list)
+                    self.pat[i] = (core + r"(?P<n>\d)x(?P=n)", core + d + "x" + d)
+                elif form == 7:     # inline flag at the start of the pattern
+                    self.pat[i] = ("(?i)" + core.lower() + r"\d", core[:2] + core[2:].lower() + d)
+                elif form == 8:     # anchors
+                    self.pat[i] = ("^.*" + core + r"\d+.*$", core + d + d)
+                elif form == 9:     # bare alternation
+                    self.pat[i] = (core + "A|" + core + "B|" + core + r"\d", core + pick(rng, ["A", "B", d]))
+                elif form == 0:
                     self.pat[i] = (core + "[[:digit:]]+", core + word(rng, DIG, 1, 3))
                 elif form == 1:
                     self.pat[i] = (core + r"\d{2}[G-Y]", core + word(rng, DIG, 2, 2) + pick(rng, UP))
